@@ -10,7 +10,7 @@
     so a semantic change of a translated Go function breaks the lemma of that function (or of a
     caller) on that run, for ALL inputs, independently of what the sampled correspondence run
     happens to hit. Nothing admitted; no axioms in the integer/bit/byte groups (can, descriptor,
-    wire, netlink, scan, dbcid, dbcvalidate); the floating-point groups (physical, apidecide) are on Flocq and depend
+    wire, netlink, scan, dbcid, dbcvalidate, lookup); the floating-point groups (physical, apidecide) are on Flocq and depend
     on the standard-library axioms its lemmas use, and on nothing else (checked by
     checks/translate_tie.py against vlib.AXIOM_WHITELIST).
 
@@ -691,14 +691,15 @@ From CanVerif Require Import Translate.FloatBits Gen.Message Gen.Api.
 Definition sig_of_a (s : signal) : Translated.Signal :=
   Translated.set_Signal_ValueDescriptions
     (Translated.set_Signal_IsFloat (sig_of_p s) (s_float s))
-    (Z.of_nat (length (s_value_descriptions s))).
+    (map (fun _ => Translated.zero_ValueDescription) (s_value_descriptions s)).
 
 Lemma sig_of_a_length s : Translated.Signal_Length (sig_of_a s) = s_length s. Proof. reflexivity. Qed.
 Lemma sig_of_a_signed s : Translated.Signal_IsSigned (sig_of_a s) = s_signed s. Proof. reflexivity. Qed.
 Lemma sig_of_a_float s : Translated.Signal_IsFloat (sig_of_a s) = s_float s. Proof. reflexivity. Qed.
+(** (only [len(s.ValueDescriptions)] is used by this group: the elements are placeholders) *)
 Lemma sig_of_a_vds s :
-  Translated.Signal_ValueDescriptions (sig_of_a s) = Z.of_nat (length (s_value_descriptions s)).
-Proof. reflexivity. Qed.
+  list_len (Translated.Signal_ValueDescriptions (sig_of_a s)) = Z.of_nat (length (s_value_descriptions s)).
+Proof. unfold list_len. cbn. now rewrite map_length. Qed.
 Lemma sig_of_a_offset s : Translated.Signal_Offset (sig_of_a s) = go_math_Float64frombits (s_offset s). Proof. reflexivity. Qed.
 Lemma sig_of_a_scale s : Translated.Signal_Scale (sig_of_a s) = go_math_Float64frombits (s_scale s). Proof. reflexivity. Qed.
 Lemma sig_of_a_min s : Translated.Signal_Min (sig_of_a s) = go_math_Float64frombits (s_min s). Proof. reflexivity. Qed.
@@ -1166,4 +1167,135 @@ Proof.
   destruct (Dbc.Ast.bytes_eqb o []); [reflexivity |]. cbn [orb].
   repeat match goal with |- context [Dbc.Ast.bytes_eqb o ?k] => destruct (Dbc.Ast.bytes_eqb o k); [reflexivity |] end.
   reflexivity.
+Qed.
+
+(* @group lookup requires can descriptor *)
+(** ** pkg/descriptor: the lookups with loops (fourth round).  database.go Message / Node / Signal,
+       message.go MultiplexerSignal, signal.go ValueDescription / UnmarshalValueDescription
+       (models: Gen/Message.v [find_message], Gen/Api.v [find_mux], Descriptor/Signal.v
+       [value_description], [unmarshal_value_description], Descriptor/Lookup.v [find_node],
+       [find_signal], [db_signal]).  A returned [*S] is [option S]: [Some] of the element value. *)
+From CanVerif Require Import Descriptor.Types Gen.Message.
+From CanVerif Require Gen.Api Descriptor.Lookup.
+
+Definition vd_of (v : value_description) : Translated.ValueDescription :=
+  Translated.set_ValueDescription_Description
+    (Translated.set_ValueDescription_Value Translated.zero_ValueDescription (vdesc_value v)) (vdesc_text v).
+Definition sig_of_l (s : signal) : Translated.Signal :=
+  Translated.set_Signal_ValueDescriptions
+    (Translated.set_Signal_IsMultiplexer
+       (Translated.set_Signal_Name (Translated.set_Signal_IsSigned (sig_of s) (s_signed s)) (s_name s))
+       (s_multiplexer s))
+    (map vd_of (s_value_descriptions s)).
+Definition msg_of (m : message) : Translated.Message :=
+  Translated.set_Message_Signals (Translated.set_Message_ID Translated.zero_Message (msg_id m)) (map sig_of_l (msg_signals m)).
+Definition node_of (n : node) : Translated.Node := Translated.set_Node_Name Translated.zero_Node (node_name n).
+Definition db_of (db : database) : Translated.Database :=
+  Translated.set_Database_Nodes
+    (Translated.set_Database_Messages Translated.zero_Database (map msg_of (db_messages db)))
+    (map node_of (db_nodes db)).
+
+(** (found element, true) / (nil, false) *)
+Definition found {A B : Type} (conv : A -> B) (o : option A) : option B * bool :=
+  match o with Some x => (Some (conv x), true) | None => (None, false) end.
+
+Lemma go_string_eqb_name_eqb a b : go_string_eqb a b = Lookup.name_eqb a b.
+Proof. revert b; induction a as [| x a IH]; intros [| y b]; cbn; auto. Qed.
+
+Lemma T_Database_Message_eq db id :
+  Translated.Database_Message (db_of db) id = found msg_of (find_message (db_messages db) id).
+Proof.
+  unfold Translated.Database_Message.
+  change (Translated.Database_Messages (db_of db)) with (map msg_of (db_messages db)).
+  generalize 0 as i. induction (db_messages db) as [| m tl IH]; intros i; [reflexivity |].
+  cbn [map go_range find_message go_deref].
+  change (Translated.Message_ID (msg_of m)) with (msg_id m).
+  destruct (msg_id m =? id); [reflexivity | apply IH].
+Qed.
+
+Lemma T_Database_Node_eq db name :
+  Translated.Database_Node (db_of db) name = found node_of (Lookup.find_node (db_nodes db) name).
+Proof.
+  unfold Translated.Database_Node.
+  change (Translated.Database_Nodes (db_of db)) with (map node_of (db_nodes db)).
+  generalize 0 as i. induction (db_nodes db) as [| n tl IH]; intros i; [reflexivity |].
+  cbn [map go_range Lookup.find_node go_deref].
+  change (Translated.Node_Name (node_of n)) with (node_name n). rewrite go_string_eqb_name_eqb.
+  destruct (Lookup.name_eqb (node_name n) name); [reflexivity | apply IH].
+Qed.
+
+Lemma find_signal_loop ss name i :
+  match go_range (fun (_ : Z) (v_s__ : Translated.Signal) (_ : unit) =>
+      let v_s := Some v_s__ in
+      if go_string_eqb (Translated.Signal_Name (go_deref Translated.zero_Signal v_s)) name
+      then LoopReturn (v_s, true) else LoopNext tt) i (map sig_of_l ss) tt with
+  | LoopReturn r => r
+  | LoopNext _ => (None, false)
+  end = found sig_of_l (Lookup.find_signal ss name).
+Proof.
+  revert i. induction ss as [| s tl IH]; intros i; [reflexivity |].
+  cbn [map go_range Lookup.find_signal go_deref].
+  change (Translated.Signal_Name (sig_of_l s)) with (s_name s). rewrite go_string_eqb_name_eqb.
+  destruct (Lookup.name_eqb (s_name s) name); [reflexivity | apply IH].
+Qed.
+
+Lemma T_Database_Signal_eq db id name :
+  Translated.Database_Signal (db_of db) id name = found sig_of_l (Lookup.db_signal db id name).
+Proof.
+  unfold Translated.Database_Signal, Lookup.db_signal. rewrite T_Database_Message_eq.
+  destruct (find_message (db_messages db) id) as [m |]; cbn [found negb go_deref]; [| reflexivity].
+  change (Translated.Message_Signals (msg_of m)) with (map sig_of_l (msg_signals m)).
+  apply find_signal_loop.
+Qed.
+
+Lemma T_Message_MultiplexerSignal_eq m :
+  Translated.Message_MultiplexerSignal (msg_of m) = found sig_of_l (Api.find_mux (msg_signals m)).
+Proof.
+  unfold Translated.Message_MultiplexerSignal.
+  change (Translated.Message_Signals (msg_of m)) with (map sig_of_l (msg_signals m)).
+  generalize 0 as i. induction (msg_signals m) as [| s tl IH]; intros i; [reflexivity |].
+  cbn [map go_range Api.find_mux go_deref].
+  change (Translated.Signal_IsMultiplexer (sig_of_l s)) with (s_multiplexer s).
+  destruct (s_multiplexer s); [reflexivity | apply IH].
+Qed.
+
+(** (description, true) / ("", false) *)
+Definition described (o : option bytes) : go_string * bool :=
+  match o with Some t => (t, true) | None => ([], false) end.
+
+Lemma T_Signal_ValueDescription_eq s value :
+  Translated.Signal_ValueDescription (sig_of_l s) value = described (Descriptor.Signal.value_description (s_value_descriptions s) value).
+Proof.
+  unfold Translated.Signal_ValueDescription.
+  change (Translated.Signal_ValueDescriptions (sig_of_l s)) with (map vd_of (s_value_descriptions s)).
+  generalize 0 as i. induction (s_value_descriptions s) as [| v tl IH]; intros i; [reflexivity |].
+  cbn [map go_range Descriptor.Signal.value_description go_deref].
+  change (Translated.ValueDescription_Value (vd_of v)) with (vdesc_value v).
+  change (Translated.ValueDescription_Description (vd_of v)) with (vdesc_text v).
+  destruct (vdesc_value v =? value); [reflexivity | apply IH].
+Qed.
+
+(** callees on [sig_of_l] (they read only fields that [sig_of] sets) *)
+Lemma T_Signal_UnmarshalUnsigned_eq_l s d :
+  valid_data d -> Translated.Signal_UnmarshalUnsigned (sig_of_l s) d = unmarshal_unsigned s d.
+Proof. exact (T_Signal_UnmarshalUnsigned_eq s d). Qed.
+Lemma T_Signal_UnmarshalSigned_eq_l s d :
+  valid_data d -> in_u 8 (s_start s) -> Translated.Signal_UnmarshalSigned (sig_of_l s) d = unmarshal_signed s d.
+Proof. exact (T_Signal_UnmarshalSigned_eq s d). Qed.
+
+Lemma T_Signal_UnmarshalValueDescription_eq s d :
+  valid_data d -> in_u 8 (s_start s) ->
+  Translated.Signal_UnmarshalValueDescription (sig_of_l s) d = described (unmarshal_value_description s d).
+Proof.
+  intros Hd Hs. unfold Translated.Signal_UnmarshalValueDescription, unmarshal_value_description. cbv zeta.
+  change (Translated.Signal_ValueDescriptions (sig_of_l s)) with (map vd_of (s_value_descriptions s)).
+  change (Translated.Signal_IsSigned (sig_of_l s)) with (s_signed s).
+  destruct (s_value_descriptions s) as [| v tl] eqn:E; [reflexivity |].
+  replace (list_len (map vd_of (v :: tl)) =? 0) with false
+    by (symmetry; apply Z.eqb_neq; unfold list_len; cbn [map length]; lia).
+  rewrite <- E. destruct (s_signed s).
+  - rewrite T_Signal_UnmarshalSigned_eq_l by assumption. apply T_Signal_ValueDescription_eq.
+  - rewrite T_Signal_UnmarshalUnsigned_eq_l by assumption. rewrite T_Signal_ValueDescription_eq.
+    rewrite wrap_s64_u; [reflexivity |]. unfold unmarshal_unsigned.
+    destruct (s_big_endian s); [apply ubits_be_in_u64 | apply ubits_le_in_u64; destruct Hs; lia].
 Qed.
